@@ -136,13 +136,13 @@ class C04(Check):
     pid = "C04"
     title = "Variable elimination is implication-preserving for every tactic order"
     level_text = ("Lean theorems transform_refine_sound / transform_relax_sound (the whole _transform loop, any tactic order, any tactics that are sound, all list sizes), "
-                  "elimRefine_sound / elimRelax_sound / elimRelax_no_elim_vars, tactic2_sound, tactic4_dominates, trivial and declining tactics, and "
+                  "elimRefine_sound / elimRelax_sound / elimRelax_no_elim_vars, tactic2_sound, tactic4_sound (substitution chains of any depth), tactic5_sound, trivial and declining tactics, and "
                   "reduceWith_sound_of_witness for context reduction (tactics 1/3/5: sound whenever the multiplier vector has the right sign, which the driver "
                   "certifies per call); executable models of all five tactics, the dispatcher and both elimination entry points tied to polyhedra.py by structural "
                   "correspondence (result terms at 1e-9, tactic numbers); judge: exact certified LP entailment of the implementation's own results.")
     lean_modules = ["Pacti.Props.C04"]
     theorems = ["Pacti.C04.transform_refine_sound", "Pacti.C04.transform_relax_sound", "Pacti.C04.elimRefine_sound", "Pacti.C04.elimRelax_sound",
-                "Pacti.C04.elimRelax_no_elim_vars", "Pacti.C04.tactic2_sound", "Pacti.C04.tactic5_sound", "Pacti.C04.tactic6_sound",
+                "Pacti.C04.elimRelax_no_elim_vars", "Pacti.C04.tactic2_sound", "Pacti.C04.tactic4_sound", "Pacti.C04.isolate_sign_ok", "Pacti.C04.tactic5_sound", "Pacti.C04.tactic6_sound",
                 "Pacti.C04.driver_tactics_sound", "Pacti.C04.decline_leaves_term"]
     quick_n = 1400
     thorough_n = 50000
